@@ -13,6 +13,7 @@ ASSUME = [
     "a BUILT circuit used by a pending via-circuit connection stays BUILT until the connection's stream has appeared; a connection "
     "may be started on a circuit that is still building (it waits; if the circuit fails the connection fails)",
     "SimTor acknowledges every command at once, except that the SETCONF installing an attacher (the user's or the via-circuit one) may be answered in a later step (ConfAck), with everything issued meanwhile waiting behind it; attacher error reports are observed at TorState._attacher_error (wrapped on the instance)",
+    "Tor may refuse an ATTACHSTREAM (552) in the step that sends it; refusals of commands queued behind a held SETCONF are not explored",
     "the SOCKS endpoint of a via-circuit connection is a fake whose local address the script supplies",
     "PriorityAttacher: up to three sub-attachers with priorities 0..2, each added at most once at a time, answering immediately with "
     "no preference / a circuit / do-not-attach; the order in which they are consulted is observed by the sub-attachers themselves",
@@ -104,7 +105,9 @@ def rand_script(rng, n):
                 for v in via.values():
                     if v["st"] == "reg" and v["p"] == p and kind != "exit":
                         v["st"] = "done"
-            out.append(dict(a="NewStream", s=s, kind=kind, p=p, ans=ans, mode=mode))
+            rf = (att_ == "A" and mode != "def" and kind != "exit" and not hold[0] and rng.random() < 0.25 and
+                  (ans == "none" or (ans in ("c1", "c2") and cs[1 if ans == "c1" else 2] == "BUILT")))
+            out.append(dict(a="NewStream", s=s, kind=kind, p=p, ans=ans, mode=mode, rf=rf))
         elif r < 0.78:
             # a stream we have seen fails, and is reported closed afterwards
             cand = [x for x in seen if x not in pend and ended.get(x) != "closed"]
@@ -172,6 +175,15 @@ def directed():
                     dict(a="NewStream", s=1, kind="normal", p=4001, ans="none", mode="imm"), dict(a="StreamFailed", s=1),
                     dict(a="LateClosed", s=1), dict(a="NewStream", s=2, kind="normal", p=4002, ans="none", mode="imm"),
                     dict(a="StreamFailed", s=2), dict(a="LateClosed", s=2)])
+    # Tor refuses the decision command (the circuit went away inside Tor first): reported, nothing more is sent
+    for mode in ("imm", "coro"):
+        out.append(B + [dict(a="SetAttacher", who="A", late=False),
+                        dict(a="NewStream", s=1, kind="normal", p=4001, ans="c1", mode=mode, rf=True),
+                        dict(a="NewStream", s=2, kind="resolve", p=4002, ans="none", mode=mode, rf=True),
+                        dict(a="NewStream", s=3, kind="normal", p=4003, ans="c2", mode=mode, rf=False)])
+    out.append(B + [dict(a="SetAttacher", who="A", late=False),
+                    dict(a="NewStream", s=1, kind="normal", p=4001, ans="c1", mode="def", rf=False), dict(a="Answer", s=1, rf=True),
+                    dict(a="NewStream", s=2, kind="normal", p=4002, ans="c2", mode="def", rf=False), dict(a="Answer", s=2, rf=False)])
     # the attacher is removed again before Tor has answered its installation
     out.append([dict(a="SetAttacher", who="A", late=True), dict(a="SetAttacher", who="none"), dict(a="ConfAck"),
                 dict(a="NewStream", s=1, kind="normal", p=4001, ans="none", mode="imm"),
